@@ -84,9 +84,9 @@ def run(ctx):
     pops = [x for x in walk_body_shallow(hr.body) if isinstance(x, ast.Assign) and isinstance(x.value, ast.Call) and
             call_name(x.value) == "pop" and call_recv(x.value) == "self.requests"]
     fires = [c for c in calls_in(hr, "callback")]
-    ok = (len(ids) == 1 and len(pops) == 1 and len(fires) == 1 and norm(ids[0].value.args[0]) == p
+    ok = (len(ids) == 1 and len(pops) == 1 and len(fires) >= 1 and norm(ids[0].value.args[0]) == p
           and norm(pops[0].value.args[0]) == unparse(ids[0].targets[0])
-          and call_recv(fires[0]) == "%s.d" % unparse(pops[0].targets[0]) and norm(fires[0].args[0]) == p)
+          and all(call_recv(fc) == "%s.d" % unparse(pops[0].targets[0]) and norm(fc.args[0]) == p for fc in fires))
     r.check(ok, "%s#own-response" % hr.qname, "the Deferred fired is not the one registered under the id carried by the frame "
             "delivered as its value", where(hr, hr.node), "response delivered to a different request")
     sr = ctx.func("_protocol:KafkaBootstrapProtocol.stringReceived")
@@ -264,4 +264,11 @@ MUTANTS = [
      "old": "        pending, self._pending = self._pending, None\n        for d in pending.values():", "new": "        for d in self._pending.values():",
      "expect": "C06.R8"},
 ]
-TWINS = []
+TWINS = [
+    {"id": "response-handler-branches-reordered", "file": "brokerclient.py",
+     "old": "        if tReq is None:\n            # The broker sent us a response to a request we didn't make.\n            log.error(\n                \"Unexpected response with correlationId=%d: %s\",\n                correlationId,\n                _aLongerRepr.repr(response),\n            )\n        elif tReq.cancelled is not None:",
+     "new": "        if tReq is not None and tReq.cancelled is None:\n            tReq.d.callback(response)\n            return\n        if tReq is None:\n            # The broker sent us a response to a request we didn't make.\n            log.error(\n                \"Unexpected response with correlationId=%d: %s\",\n                correlationId,\n                _aLongerRepr.repr(response),\n            )\n        elif tReq.cancelled is not None:"},
+    {"id": "cancel-branches-swapped", "file": "brokerclient.py",
+     "old": "        if tReq.sent is not None:\n            tReq.cancelled = datetime.utcfromtimestamp(self._reactor.seconds())\n        else:\n            del self.requests[correlationId]",
+     "new": "        if tReq.sent is None:\n            del self.requests[correlationId]\n        else:\n            tReq.cancelled = datetime.utcfromtimestamp(self._reactor.seconds())"},
+]
